@@ -187,3 +187,17 @@ package util
 //@   loop 0(i) invariant h1 == mfold(int32(m.seed), inputStr, i)
 //@   ensures case even: (runeLen(inputStr) & 1) == 0 ==> ret0 == int(fmixU(mfold(int32(m.seed), inputStr, runeLen(inputStr) + 1), int32(2 * runeLen(inputStr))))
 //@   ensures case odd:  (runeLen(inputStr) & 1) == 1 ==> ret0 == int(fmixU(mfold(int32(m.seed), inputStr, runeLen(inputStr)) ^ mixK1U(runeAt(inputStr, runeLen(inputStr) - 1)), int32(2 * runeLen(inputStr))))
+
+// ---------------------------------------------------------------- C15 bound values as literal text
+// ItoString: NULL (unquoted) for a NULL parameter; the bytes themselves, to be quoted, for string / blob / temporal / decimal
+// parameters (bindStmtArgs binds all of them as []byte); numbers are left to fmt's %v (trusted: decimal text of the number) and
+// are not quoted.
+//@ trusted fmt.Sprintf
+//@   params format, args
+//@   pure-call
+//@ property C15: ItoString
+//@ func ItoString
+//@   assigns \nothing
+//@   ensures case null:   a == nil ==> !ret0 && ret1 == "NULL"
+//@   ensures case bytes:  typeis(a, []byte) ==> ret0 && slen(ret1) == len(unbox(a, []byte)) && forall(k, 0, slen(ret1), sat(ret1, k) == unbox(a, []byte)[k])
+//@   ensures case number: a != nil && !typeis(a, []byte) ==> !ret0
